@@ -913,6 +913,69 @@ def emit_bodies(out, names, outdir, raw=None):
     sl.append('def implInventory : List (Nat × List Nat) := [')
     sl.append(',\n'.join('  (impl_%s, [%s])' % (d, ', '.join(str(MARKERS.index(m)) if m in MARKERS else '999' for m in ms)) for d, ms in rows))
     sl.append(']')
+    # closed-world inventory of conditional compilation: every `#[cfg(P)]`, `cfg!(P)` and every `cfg_attr(P, X)` whose
+    # payload X is not documentation or a lint level, in the macro files, the storage-type and feature-gate files
+    from rustlex import lex, match_close
+    preds = []
+    for rel in BODY_FILES + ['storage_types.rs', 'features.rs']:
+        try:
+            toks = lex(read(os.environ.get('UOM_REPO', '/repo'), 'src/' + rel, 'bodies.' + rel))
+        except SiteError:
+            raise
+        i = 0
+        while i < len(toks) - 1:
+            k, t = toks[i]
+            if k == 'id' and t in ('cfg', 'cfg_attr') and toks[i + 1] in (('p', '('), ('p', '!')):
+                j = i + 1
+                if toks[j] == ('p', '!'):
+                    j += 1
+                if j < len(toks) and toks[j] == ('p', '('):
+                    e = match_close(toks, j)
+                    inner = toks[j + 1:e]
+                    if t == 'cfg_attr':
+                        # split at the first top-level comma: predicate, payload
+                        depth, cut = 0, None
+                        for q, (kk, tt) in enumerate(inner):
+                            if kk == 'p' and tt in '([{': depth += 1
+                            if kk == 'p' and tt in ')]}': depth -= 1
+                            if kk == 'p' and tt == ',' and depth == 0:
+                                cut = q
+                                break
+                        payload = ' '.join(tt for _k, tt in inner[cut + 1:]) if cut is not None else ''
+                        if re.match(r'(doc\b|allow\b|warn\b|deny\b|no_std\b|clippy\b)', payload):
+                            i = e + 1
+                            continue
+                        text = 'cfg_attr(' + ' '.join(tt for _k, tt in inner) + ')'
+                    else:
+                        text = ' '.join((repr(tt) if _k == 'str' else tt) for _k, tt in inner)
+                    if text not in preds:
+                        preds.append(text)
+                    i = e + 1
+                    continue
+            i += 1
+    sl.append('')
+    sl.append('/-! every conditional-compilation predicate of the macro files (documentation / lint-only `cfg_attr`s excluded) -/')
+    names = []
+    for i, ptxt in enumerate(preds):
+        nm = 'cfg_' + (re.sub(r'[^A-Za-z0-9]+', '_', ptxt).strip('_') or 'x')
+        if nm in names:
+            nm += '_%d' % i
+        names.append(nm)
+        sl.append('/-- `%s` -/' % ptxt.replace('-/', '- /'))
+        sl.append('def %s : Nat := %d' % (nm, i))
+    sl.append('def cfgPredicates : List Nat := [%s]' % ', '.join(names))
+    # the atoms of each predicate other than `feature = "…"` and `test` (e.g. `debug_assertions`, `target_pointer_width`):
+    # configuration axes the feature-flag property (C17) and the debug-build correspondence do not range over
+    foreign = []
+    for nm, ptxt in zip(names, preds):
+        atoms = [w for w in re.findall(r"[A-Za-z_$][A-Za-z0-9_$]*", re.sub(r"'[^']*'", '', ptxt))
+                 if w not in ('not', 'any', 'all', 'feature', 'test', 'cfg_attr', '$feature')]
+        if atoms:
+            foreign.append('(%s, %d)' % (nm, len(atoms)))
+    sl.append('def cfgForeignAtoms : List (Nat × Nat) := [%s]' % ', '.join(foreign))
+    # function keys that occur more than once (an unrecognised cfg twin would show up here)
+    dups = sorted(k for k, _n, _l in out if re.search(r'_v\d+$', k))
+    sl.append('def duplicateKeys : List String := [%s]' % ', '.join('"%s"' % d for d in dups))
     sl.append('')
     sl.append('end Uom.Gen.Sig')
     changed += write_if_changed(os.path.join(outdir, 'Sigs.lean'), '\n'.join(sl) + '\n')
